@@ -193,7 +193,7 @@ fn check_row(row: &Row, st: &mut Stats) -> Result<(), String> {
 // live differential
 
 fn check_live_point(src: &super::c01::Src, res: i32, st: &mut Stats) -> Result<(), String> {
-    let (lon, lat, class) = src.lonlat()?;
+    let (lon, lat, class) = src.with_res(res).lonlat()?;
     let rid = refapi::lookup(lon, lat, res).map_err(|e| format!("reference lookup failed: {}", e))?;
     let rcell = match codec::decode(rid) {
         Some(c) => c,
